@@ -47,7 +47,7 @@ NewNone == <<>>
 XferNone == {}
 AllOps == {"addbalance", "subbalance", "setbalance", "setnonce", "setcode", "setstate", "settransient", "suicide",
            "createaccount", "addlog", "addrefund", "subrefund", "addpreimage", "aladdr", "alslot", "snapshot", "revert",
-           "push", "popok", "popsuicide", "popabort", "sstore", "tstore", "log", "xfer", "etx", "claim"}
+           "push", "popok", "popsuicide", "popabort", "sstore", "tstore", "log", "xfer", "etx", "xcall", "claim"}
 AnyVals == 0..255
 AnyAmts == 0..255
 
@@ -76,10 +76,11 @@ Report(kind, exp) ==
 
 \* implementation-only check: after a revert the logged digest equals the one logged at the snapshot
 IsRevertEv == Ev.op \in {"revert", "popabort"}
-ImplRestored == IsRevertEv => (Ev.id + 1 \in 1..Len(isaved) /\ isaved[Ev.id + 1] = Ev.dg)
+ImplRestored == /\ IsRevertEv => (Ev.id + 1 \in 1..Len(isaved) /\ isaved[Ev.id + 1] = Ev.dg)
+                /\ (Ev.op = "xcall" /\ Ev.s = 0) => Ev.pre = Ev.dg     \* a failed cross-zone transaction
 TrackDigests ==
     /\ isaved' = IF Ev.op = "snapshot" THEN Append(isaved, Ev.dg)
-                 ELSE IF Ev.op = "push" THEN Append(isaved, Ev.pre) ELSE isaved
+                 ELSE IF Ev.op \in {"push", "xcall"} THEN Append(isaved, Ev.pre) ELSE isaved
     /\ (IF ImplRestored THEN TRUE ELSE Report("impl-revert", <<>>))
 
 \* the spec action fires with the logged arguments; logged result and state are compared with the specified ones
@@ -144,6 +145,7 @@ TraceNext ==
     \/ Is("log")           /\ Step(EmitLog)
     \/ Is("xfer")          /\ Step(Xfer(Ev.a))
     \/ Is("etx")           /\ Step(Etx)
+    \/ Is("xcall")         /\ Step(TopXCall(Ev.a, Ev.s = 1))
     \/ Is("claim")         /\ Step(Claim)
 
 TraceSpec == TraceInit /\ [][TraceNext]_tvars
